@@ -79,6 +79,13 @@ def preStep (st : St) (img : List Nat) : St :=
   let s := setActiveMapper st (fRealSrc img) (fEthSrc img)
   if fTos img = 1 then { s with genQuick := fDiscGen img } else { s with genTopo := fDiscGen img }
 
+theorem preStepRaw_eq (st : St) (img : List Nat) : preStepRaw st img = preStep st img := by
+  unfold preStepRaw preStep
+  simp only [X.tosQuick_val]
+  by_cases hq : fTos img = 1
+  · simp only [hq, if_true, prestep_gen]
+  · simp only [hq, if_false, prestep_gen]
+
 theorem preStep_matches (st : St) (img : List Nat) (h : mapperMatches st (fRealSrc img) = true) :
     mapperMatches (preStep st img) (fRealSrc img) = true := by
   have := mapperMatches_setActive st (fRealSrc img) (fEthSrc img) h
@@ -112,12 +119,9 @@ theorem parseFrameSt_discover (c : Cfg) (g : Glob) (w : World) (st : St) (img : 
       else { st := st, w := w, fx := [] } := by
   by_cases hm : mapperMatches st (fRealSrc img) = true
   · have hm' := preStep_matches st img hm
-    unfold preStep at hm'
     rcases htos with h0 | h1
-    · simp [parseFrameSt, h0, hop, hm, preStep, prestep_gen'] at hm' ⊢
-      simp [hm']
-    · simp [parseFrameSt, h1, hop, hm, preStep, prestep_gen'] at hm' ⊢
-      simp [hm']
+    · simp [parseFrameSt, h0, hop, hm, preStepRaw_eq, hm']
+    · simp [parseFrameSt, h1, hop, hm, preStepRaw_eq, hm']
   · rcases htos with h0 | h1
     · simp [parseFrameSt, h0, hop, hm]
     · simp [parseFrameSt, h1, hop, hm]
